@@ -284,6 +284,11 @@ def run_worker(pid: str, tier: str, seed: int, shard: int, nshards: int, out: st
             tr.stop()
             faulthandler.cancel_dump_traceback_later()
         ctx.classes[f"environment:{profile}:monitored-executions"] += ctx.evaluations
+        snap = sys.modules.get("vmon.snapshot")
+        if snap is not None:      # the route monitors inside snapshot.compare_tables: how often each was evaluated
+            for label, attr in (("route:mother-by-pdg-name", "ROUTE_COUNT"), ("route:tables-through-the-chain-query", "CHAIN_ROUTE_COUNT"), ("route:tables-as-printed", "PRINT_ROUTE_COUNT")):
+                if getattr(snap, attr, [0])[0]:
+                    ctx.monitors[label] += getattr(snap, attr)[0]
         res = ctx.dump()
         res["anchors"] = tr.report()
     except Inconclusive as e:
